@@ -79,6 +79,12 @@ def add(a, b, sign=1):
         if not (isinstance(a, Stack) and isinstance(b, Stack) and len(a) == len(b)):
             raise Unsupported("stack mismatch in add")
         return Stack(add(x, y, sign) for x, y in zip(a, b))
+    if isinstance(a, TT) and isinstance(b, TT) and bool(a.axes) != bool(b.axes):
+        # rank-0 operand broadcast against a tensor
+        if not b.axes:
+            b = TT([tuple((fresh(), s_) for _, s_ in ax) for ax in a.axes], b.terms)
+        else:
+            a = TT([tuple((fresh(), s_) for _, s_ in ax) for ax in b.axes], a.terms)
     b = align(a, b)
     return TT(a.axes, a.terms + [(c * sign, at, bd) for c, at, bd in b.terms])
 
@@ -236,14 +242,27 @@ def reshape(a, new_sizes, sizes):
 # ------------------------------------------------------------------ canonical form and equality
 def _canon_term(term, free_names):
     c, atoms, bound = term
-    bvars = sorted(v for v, _ in bound)
     used = {v for _, vs, _ in atoms for v in vs}
     dead = [(v, s) for v, s in bound if v not in used]
     if dead:
         raise Unsupported("summation over an index that no factor carries (a size factor): not modelled")
+    # bound variables may only be relabelled within their size symbol
+    classes = {}
+    for v, s_ in sorted(bound):
+        classes.setdefault(s_, []).append(v)
+    syms = sorted(classes)
+    count = 1
+    for s_ in syms:
+        for k in range(2, len(classes[s_]) + 1):
+            count *= k
+    if count > 400000:
+        raise Unsupported("too many bound variables for the canonical labelling")
     best = None
-    for perm in itertools.permutations(range(len(bvars))):
-        m = {v: ("b", perm[i]) for i, v in enumerate(bvars)}
+    for perms in itertools.product(*[itertools.permutations(range(len(classes[s_]))) for s_ in syms]):
+        m = {}
+        for s_, perm in zip(syms, perms):
+            for i, v in enumerate(classes[s_]):
+                m[v] = ("b", s_, perm[i])
         lab = []
         for n, vs, cj in atoms:
             t = [m.get(v, free_names.get(v, ("?", v))) for v in vs]
@@ -251,12 +270,11 @@ def _canon_term(term, free_names):
                 i, j = SYMMETRIC[n]
                 if t[j] < t[i]:
                     t[i], t[j] = t[j], t[i]
-            lab.append((n, tuple(t), cj))
+            lab.append((n, tuple(t), cj and n not in REAL))
         key = tuple(sorted(lab))
         if best is None or key < best:
             best = key
-    syms = tuple(sorted(s for _, s in bound))
-    return best, syms, c
+    return best, tuple(sorted(s for _, s in bound)), c
 
 
 def canonical(t: TT):
@@ -266,8 +284,6 @@ def canonical(t: TT):
             free[v] = ("f", i, j)
     acc = {}
     for term in t.terms:
-        if len(term[2]) > 7:
-            raise Unsupported("too many bound variables for the canonical labelling")
         k, syms, c = _canon_term(term, free)
         acc[(k, syms)] = acc.get((k, syms), 0) + c
     return ([_axis_sig(a) for a in t.axes], {k: v for k, v in acc.items() if v != 0})
@@ -310,6 +326,21 @@ def ein(spec, *ops):
     return TT([((var[ch], sym[ch]),) for ch in out], [(c, at, frozenset(b | bound)) for c, at, b in terms])
 
 
+class Frac:
+    """quotient of two scalar formal tensors (only created by a final division; compared by cross-multiplication)"""
+
+    def __init__(self, num, den):
+        self.num, self.den = num, den
+
+
+def frac_equal(a, b):
+    if not isinstance(a, Frac):
+        a = Frac(a, const(Fraction(1)))
+    if not isinstance(b, Frac):
+        b = Frac(b, const(Fraction(1)))
+    return equal(mul(a.num, b.den), mul(b.num, a.den))
+
+
 def _num(k):
     kv = complex(np.asarray(k))
     return Fraction(kv.real) if kv.imag == 0 else kv
@@ -345,7 +376,7 @@ class Interp:
     def eqn(self, e, ins):
         p, P = e.primitive.name, e.params
         self.seen[p] = self.seen.get(p, 0) + 1
-        sym = any(isinstance(x, (TT, Stack)) for x in ins)
+        sym = any(isinstance(x, (TT, Stack, Frac)) for x in ins)
         if p in ("jit", "pjit", "closed_call", "core_call", "custom_jvp_call", "custom_vjp_call", "remat", "checkpoint"):
             nm = P.get("name", "")
             if nm in self.intercept:
@@ -363,6 +394,10 @@ class Interp:
             return dot_general(ins[0], ins[1], P["dimension_numbers"])
         if p == "reshape":
             return reshape(ins[0], list(P["new_sizes"]), self.sizes)
+        if p in ("add", "add_any", "sub") and isinstance(ins[0], Frac) and isinstance(ins[1], Frac):
+            if not equal(ins[0].den, ins[1].den):
+                raise Unsupported("sum of quotients with different denominators")
+            return Frac(add(ins[0].num, ins[1].num, -1 if p == "sub" else 1), ins[0].den)
         if p in ("add", "add_any", "sub"):
             x, y = ins
             sg = -1 if p == "sub" else 1
@@ -385,6 +420,8 @@ class Interp:
             a, b = ins
             if isinstance(a, (TT, Stack)) and isinstance(b, (TT, Stack)):
                 if p == "div":
+                    if isinstance(a, TT) and isinstance(b, TT) and not b.axes:
+                        return Frac(a, b)          # x / scalar: kept as a quotient
                     raise Unsupported("division of two symbolic tensors")
                 return mul(a, b)
             t, k = (a, b) if isinstance(a, (TT, Stack)) else (b, a)
@@ -444,6 +481,8 @@ class Interp:
                     raise Unsupported("strided slice")
                 sub = x[st[0]:li[0]]
                 return Stack(sub)
+            if isinstance(x, TT) and all(v == 0 for v in st) and list(li) == list(e.invars[0].aval.shape):
+                return x           # full-range slice
             raise Unsupported("slice of a symbolic axis")
         if p == "squeeze":
             x = ins[0]
